@@ -148,3 +148,39 @@ func VerifC14_SurvivesFailedReply() {
 	verifCheckReply(out2.Bytes(), f2, verifReqKnown, verifOutValue, 0, "b", h, calls)
 	verifReach("end")
 }
+
+func init() {
+	verifHarnesses["VerifC14_NatsServeWorkers"] = VerifC14_NatsServeWorkers
+}
+
+// The NATS server as it really runs (Serve, 1..2 workers, requests arriving through
+// the subscription): two requests processed concurrently are each answered with
+// exactly one well-formed reply on their own reply subject.
+func VerifC14_NatsServeWorkers() {
+	b := newVerifBroker()
+	h := &verifPingHandler{}
+	h.outcome = verifOutcome(verifOutValue, 0)
+	h.onCall = func(FContext) { verifYield("handler running") }
+	workers := uint(1 + verifParam())
+	srv := NewFNatsServerBuilder(&nats.Conn{}, verifPingProcessor(h), NewFProtocolFactory(thrift.NewTBinaryProtocolFactoryDefault()), []string{"svc"}).
+		WithWorkerCount(workers).Build()
+	served := make(chan error, 1)
+	go func() { served <- srv.Serve() }()
+	verifBlockUntil(func() bool { return len(b.subs) == 1 })
+	f1, f2 := NewFContext("c1"), NewFContext("c2")
+	a1, a2 := verifStr(1), verifStr(1)
+	b.inject("svc", "reply1", prependFrameSize(verifRequestFrame(f1, verifReqKnown, a1)))
+	b.inject("svc", "reply2", prependFrameSize(verifRequestFrame(f2, verifReqKnown, a2)))
+	verifAssert(srv.Stop() == nil, "Stop")
+	verifAssert(<-served == nil, "Serve returns")
+	for i, f := range []FContext{f1, f2} {
+		got := verifPublishedTo(b, []string{"reply1", "reply2"}[i])
+		verifAssert(len(got) == 1, "exactly one message on the request's reply subject")
+		rep, rest, ok := verifParseReply(got[0])
+		verifAssert(ok && len(rest) == 0, "which is exactly one well-formed reply frame")
+		verifAssert(rep.opid == verifOpID(f) && rep.cid == f.CorrelationID(), "for this request")
+		verifAssert(rep.mtype == thrift.REPLY && rep.success != nil && *rep.success == "re:"+[]string{a1, a2}[i], "with the handler's value for this request's argument")
+	}
+	verifAssert(h.calls == 2, "the handler ran once per request")
+	verifReach("end")
+}
